@@ -254,6 +254,8 @@ Section Monitor.
                              && match info with
                                 | Some t => option_eqb N.eqb amount (match ti_inv_amount t with Some _ => None | None => Some (ti_amount t) end)
                                 | None => false end) m in
+        (* C11: no outgoing payment is started for a set that has not reached the required total *)
+        let m := viol i P11 (deliver + fee_base pl + deliver * fee_ppm pl / 1000000 <=? sigma) m in
         (* C04: outgoing expiry safely before the incoming; and no pay for a doomed set *)
         let '(hgt0, minexp0) := match mh_snap x with Some v => v | None => (m_height m, min_exp set) end in
         let bound := (minexp0 - hgt0) - cltv_delta c in
